@@ -46,6 +46,8 @@ def generate(rng, tier, index):
     recipe.pop("active_dims", None)
     if fam == "default":
         recipe["batch"] = rng.choice([[], [], [2]])
+    else:
+        recipe["batch"] = rng.choice([[], [], [2]])  # batched Kronecker multitask models too
     recipe["n"] = rng.randint(3, 7) if fam == "default" else rng.randint(3, 4)
     max_len = rng.randint(3, 10) if not thorough else rng.randint(4, 30)
     rate_mode = rng.choice(["none", "low", "high", "all_but_one", "mixed"])
@@ -403,6 +405,8 @@ def oracle_guard(out, M, recipe, y, xs, ref, tol=TOL):
     state = zoo.exact_state(M)
     state["inputs"] = (X[o],)
     state["targets"] = y[o]
+    if state.get("fixed_noise") is not None:
+        state["fixed_noise"] = state["fixed_noise"][o]  # the deleted observations' fixed noise goes with them
     try:
         D = zoo.fresh_exact(recipe, state)
         D.eval()
